@@ -14,7 +14,21 @@ PREF_CHOICES = {
     "DecimalSeparator": ["Auto", ".", ","],
     "BrailleNavHighlight": ["Off", "EndPoints"],
     "UEB_START_MODE": ["Grade1", "Grade2"],
+    "DecimalSeparators": [".", ",", ".,"],
+    "BlockSeparators": [", \u00a0\u202f", ". \u00a0\u202f", " ", ",", "."],
+    "Chemistry": ["SpellOut", "Off"],
 }
+DEFAULTS = {"Language": "en", "SpeechStyle": "ClearSpeak", "Verbosity": "Medium", "BrailleCode": "Nemeth", "CheckRuleFiles": "Prefs", "TTS": "none", "Impairment": "Blindness",
+            "DecimalSeparator": "Auto", "BrailleNavHighlight": "EndPoints", "UEB_START_MODE": "Grade2", "DecimalSeparators": ".", "BlockSeparators": ", \u00a0\u202f", "Chemistry": "SpellOut"}
+# expressions whose answers depend on a cache: characters only in the full Unicode tables, numbers with separators,
+# function names / units from the definition files, nested fractions (Nemeth caches the level on the tree), chemistry
+CACHE_SENSITIVE = [
+    "<math><mi>x</mi><mo>⊕</mo><mi>ℵ</mi></math>", "<math><mi>x</mi><mo>∜</mo><mi>ℵ</mi><mo>⨁</mo><mi>ℏ</mi></math>", "<math><mi>a</mi><mo>⟹</mo><mi>b</mi><mo>⊗</mo><mi>𝔸</mi></math>",
+    "<math><mn>1</mn><mo>.</mo><mn>234</mn><mo>,</mo><mn>5</mn></math>", "<math><mn>1,234.5</mn><mo>+</mo><mn>1.234,5</mn><mo>+</mo><mn>12 345</mn></math>", "<math><mn>3</mn><mo>,</mo><mn>5</mn><mo>+</mo><mn>1</mn><mo>.</mo><mn>000</mn></math>",
+    "<math><mrow><mi>sin</mi><mo>⁡</mo><mi>x</mi><mo>+</mo><mi>log</mi><mo>⁡</mo><mi>y</mi></mrow></math>", "<math><mrow><mn>5</mn><mi intent=':unit'>km</mi></mrow></math>",
+    "<math><mfrac><mn>1</mn><mrow><mi>x</mi><mo>+</mo><mfrac><mn>1</mn><mrow><mi>y</mi><mo>+</mo><mfrac><mn>2</mn><mn>3</mn></mfrac></mrow></mfrac></mrow></mfrac></math>",
+    "<math><mrow><msub><mi>H</mi><mn>2</mn></msub><mi>O</mi><mo>+</mo><mi>Na</mi><mi>Cl</mi></mrow></math>", "<math><msup><mi>x</mi><mn>2</mn></msup><mo>+</mo><mfrac><mn>3</mn><mn>4</mn></mfrac></math>",
+]
 GETTERS = ["speech", "overview", "braille"]
 NAV = ["ZoomIn", "MoveNext", "MovePrevious", "ZoomOut", "ReadCurrent", "ZoomInAll", "MoveStart", "ToggleZoomLockUp", "SetPlacemarker1", "MoveTo1"]
 
@@ -62,9 +76,8 @@ def run(ctx):
     im, mo = core.impl(), core.model()
     rng = ctx.rng
     n_tl, shared = static_scan()
-    exprs = [mml.to_xml(t, ns_decl=False) for t in mml.corpus_basic()] + [mml.to_xml(mml.math(mml.gen_expr(rng, rng.randrange(1, 4))), ns_decl=False) for _ in range(20)] + \
-            ["<math><mi>x</mi><mo>⨁</mo><mi>y</mi></math>", "<math><mfrac><mn>1</mn><mrow><mi>x</mi><mo>+</mo><mfrac><mn>1</mn><mi>y</mi></mfrac></mrow></mfrac></math>", "<math><mn>1,234.5</mn><mo>+</mo><mn>3,5</mn></math>"]
-    n_hist = 40 if ctx.tier == "quick" else 1200
+    exprs = [mml.to_xml(t, ns_decl=False) for t in mml.corpus_basic()[:12]] + [mml.to_xml(mml.math(mml.gen_expr(rng, rng.randrange(1, 4))), ns_decl=False) for _ in range(8)] + CACHE_SENSITIVE * 2
+    n_hist = 150 if ctx.tier == "quick" else 3000
     oracle_fail, disagreements = [], []
     n_calls = n_pred = 0
     for h in range(n_hist):
@@ -83,16 +96,18 @@ def run(ctx):
             else:
                 lines.append({"op": "nav", "cmd": rng.choice(NAV)})
         e = rng.choice(exprs)
-        tail = [{"op": "set_pref", "name": k, "value": v} for k, v in target.items()] + [{"op": "set_mathml", "xml": e}]
         gets = getters_reqs()
         rng.shuffle(gets)
         gets = gets + [rng.choice(gets)]          # one getter twice: order and repetition must not matter
-        # every preference the history touched must be set in the fresh session too (defaults restored explicitly)
+        # every preference the history touched must have the same value in the fresh session (defaults restored explicitly).
+        # Language and DecimalSeparator recompute the two separator lists when they CHANGE, so the lists are always set
+        # explicitly, last, in both sessions.
+        LISTS = ("DecimalSeparators", "BlockSeparators")
         touched = {l["name"] for l in lines if l["op"] == "set_pref"} - set(target)
-        restore = [{"op": "set_pref", "name": k, "value": PREF_CHOICES[k][0] if k not in ("CheckRuleFiles",) else "Prefs"} for k in sorted(touched)]
-        defaults = {"Language": "en", "SpeechStyle": "ClearSpeak", "Verbosity": "Medium", "BrailleCode": "Nemeth", "CheckRuleFiles": "Prefs", "TTS": "None", "Impairment": "Blindness",
-                    "DecimalSeparator": "Auto", "BrailleNavHighlight": "EndPoints", "UEB_START_MODE": "Grade2"}
-        restore = [{"op": "set_pref", "name": k, "value": defaults[k]} for k in sorted(touched)]
+        order = ["Language", "DecimalSeparator"] + sorted(set(DEFAULTS) - {"Language", "DecimalSeparator"} - set(LISTS))
+        restore = [{"op": "set_pref", "name": k, "value": DEFAULTS[k]} for k in order if k in touched]
+        tail = [{"op": "set_pref", "name": k, "value": target[k]} for k in order if k in target] + \
+               [{"op": "set_pref", "name": k, "value": target.get(k, DEFAULTS[k])} for k in LISTS] + [{"op": "set_mathml", "xml": e}]
         hist_lines = lines + restore + tail + gets
         fresh_lines = core.prelude([]) + restore + tail + gets
         rep_h = im.run([{"op": "session"}] + hist_lines)[1:]
@@ -110,6 +125,23 @@ def run(ctx):
             if key in seen and seen[key] != o:
                 oracle_fail.append({"why": "the same getter answers differently when called again", "call": q, "first": seen[key], "again": o, "lines": hist_lines})
             seen[key] = o
+    # targeted: the same expression under configuration A, then B, against a fresh B -- one preference at a time
+    n_switch = 0
+    switch_prefs = ["Language", "BrailleCode", "SpeechStyle", "DecimalSeparators", "BlockSeparators", "Verbosity", "Chemistry"]
+    for _ in range(60 if ctx.tier == "quick" else 1500):
+        k = rng.choice(switch_prefs)
+        a, b = rng.sample(PREF_CHOICES[k], 2)
+        e0, e = rng.choice(CACHE_SENSITIVE), rng.choice(CACHE_SENSITIVE)
+        hist_lines = core.prelude([{"op": "set_pref", "name": k, "value": a}, {"op": "set_mathml", "xml": e0}]) + getters_reqs() + [{"op": "set_pref", "name": k, "value": b}, {"op": "set_mathml", "xml": e}] + getters_reqs()
+        fresh_lines = core.prelude([{"op": "set_pref", "name": k, "value": b}, {"op": "set_mathml", "xml": e}]) + getters_reqs()
+        oh = outputs(im.run([{"op": "session"}] + hist_lines)[-4:])
+        of = outputs(im.run([{"op": "session"}] + fresh_lines)[-4:])
+        n_switch += 1
+        n_calls += len(hist_lines)
+        if oh != of:
+            i = next(i for i in range(4) if oh[i] != of[i])
+            oracle_fail.append({"why": "output after switching one preference differs from a fresh session", "pref": [k, a, b], "call": ([{"op": "set_mathml"}] + getters_reqs())[i], "after_history": oh[i], "fresh": of[i],
+                                "lines": hist_lines, "fresh_lines": fresh_lines})
     # preference round trip on a fixed expression
     n_rt = 0
     for _ in range(15 if ctx.tier == "quick" else 300):
@@ -124,7 +156,11 @@ def run(ctx):
         if first != last:
             oracle_fail.append({"why": "switching a preference away and back does not restore the output", "pref": [k, a, b], "before": first, "after": last, "lines": lines})
     # file-read prediction (hooks H2 + H6) along random histories without file changes
-    for h in range(12 if ctx.tier == "quick" else 200):
+    needs_full = {}
+    SLOT = {"speech": "speech", "braille": "braille"}
+    im2 = core.impl()
+    pred_exprs = CACHE_SENSITIVE[:3] + exprs[:6]
+    for h in range(30 if ctx.tier == "quick" else 400):
         sim = loader_sim.Sim(mo)
         lines = core.prelude([])
         im.run([{"op": "session"}] + lines + [{"op": "hook", "which": "read_log"}])
@@ -132,7 +168,7 @@ def run(ctx):
         for step in range(rng.randrange(4, 14)):
             r = rng.random()
             if step == 0:
-                q = {"op": "set_mathml", "xml": rng.choice(exprs)}      # getters before any expression fail half-way through their reads
+                q = {"op": "set_mathml", "xml": rng.choice(pred_exprs)}      # getters before any expression fail half-way through their reads
             elif r < 0.35:
                 k = rng.choice(["Language", "SpeechStyle", "BrailleCode", "CheckRuleFiles", "Verbosity"])
                 v = rng.choice(PREF_CHOICES[k])
@@ -140,11 +176,11 @@ def run(ctx):
                 if k == "CheckRuleFiles":
                     check = v
             elif r < 0.55:
-                q = {"op": "set_mathml", "xml": rng.choice(exprs)}
+                q = {"op": "set_mathml", "xml": rng.choice(pred_exprs)}
             else:
                 q = rng.choice(getters_reqs())
             if step == 0:
-                q = {"op": "set_mathml", "xml": rng.choice(exprs)}
+                q = {"op": "set_mathml", "xml": rng.choice(pred_exprs)}
             lines.append(q)
             rep = im.run([q, {"op": "hook", "which": "read_log"}, {"op": "hook", "which": "rule_files"}])
             if q["op"] == "set_pref" or rep[0].get("r") != "ok" or rep[2].get("r") != "ok":
@@ -155,14 +191,27 @@ def run(ctx):
             fulls = {os.path.realpath(files["speech_unicode_full"]): "speech", os.path.realpath(files["braille_unicode_full"]): "braille"}
             log_eager = [p for p in log if p not in fulls and not p.endswith("/prefs.yaml")]
             n_pred += 1
-            for p in log:
-                if p in fulls:
-                    ok2, needs, _ = sim.full_read(fulls[p], files, check != "All")
-                    if not needs:
-                        disagreements.append({"why": "the full Unicode table was read although the model says it is loaded and current", "file": p, "step": q, "lines": list(lines)})
+            # does this call need the full Unicode table at all?  A fresh session tells (it reads the file iff it needs it).
+            if q["op"] in ("speech", "braille"):
+                sd = "braille" if q["op"] == "braille" else "speech"
+                cur_xml = [l for l in lines if l["op"] == "set_mathml"][-1]["xml"]
+                key = (q["op"], cur_xml, files[sd + "_unicode"], files[sd + "_unicode_full"], files[SLOT[q["op"]]])
+                if key not in needs_full:
+                    fl = core.prelude([l for l in lines if l["op"] == "set_pref"]) + [{"op": "set_mathml", "xml": cur_xml}, {"op": "hook", "which": "read_log"}, q, {"op": "hook", "which": "read_log"}]
+                    rr = im2.run([{"op": "session"}] + fl)
+                    needs_full[key] = os.path.realpath(files[sd + "_unicode_full"]) in [os.path.realpath(p) for p in (rr[-1].get("v") or [])]
+                full_path = os.path.realpath(files[sd + "_unicode_full"])
+                if needs_full[key]:
+                    ok2, needs, _ = sim.full_read(sd, files, check != "All")
+                    if needs != (full_path in log):
+                        disagreements.append({"why": "the call needs the full Unicode table: the model says it " + ("must" if needs else "need not") + " be read, the library " + ("read" if full_path in log else "did not read") + " it",
+                                              "file": os.path.relpath(full_path, core.rules_dir()), "step": q, "lines": list(lines)})
+                elif full_path in log:
+                    disagreements.append({"why": "the full Unicode table was read by a call that does not need it in a fresh session", "file": os.path.relpath(full_path, core.rules_dir()), "step": q, "lines": list(lines)})
             if pred != log_eager:
                 disagreements.append({"why": "files read by a call differ from the model's prediction", "step": q, "impl": [os.path.relpath(p, core.rules_dir()) for p in log_eager],
                                       "model": [os.path.relpath(p, core.rules_dir()) for p in pred], "lines": list(lines)})
+    im2.close()
     # two threads with independent sessions
     n_thr = 0
     for _ in range(6 if ctx.tier == "quick" else 60):
@@ -194,7 +243,7 @@ def run(ctx):
         "rule": "random histories (2-11 steps of set_preference over 10 preferences, set_mathml, getters, navigation) followed by a target preference assignment, an expression and the getters in "
                 "random order with one repeated, compared with a fresh session; preference round trips on a fixed expression; file-read prediction along histories (hooks H2 + H6); two sessions "
                 "in two threads interleaved at random vs each alone. non-trivial = histories compared with fresh",
-        "histories": n_hist, "pref_roundtrips": n_rt, "calls_with_predicted_file_reads": n_pred, "thread_interleavings": n_thr,
+        "histories": n_hist, "single_preference_switches": n_switch, "pref_roundtrips": n_rt, "calls_with_predicted_file_reads": n_pred, "thread_interleavings": n_thr,
         "thread_local_blocks_in_src": n_tl, "shared_mutable_statics_found": shared,
         "model_vs_impl_disagreements": [{k: v for k, v in d.items() if k != "lines"} for d in disagreements[:8]], "n_disagreements": len(disagreements),
         "impl_vs_oracle_failures": [{k: v for k, v in f.items() if k not in ("lines", "fresh_lines")} for f in oracle_fail[:8]], "n_oracle_failures": len(oracle_fail),
